@@ -411,4 +411,7 @@ def run(ctx) -> Report:
         "numpy ndindex/asarray/reshape/prod are modelled by their documented semantics (row-major)",
         "MeshSequence (mixed-mesh) branches are not instantiated",
     ]
+    from ..memokey import memo_rule
+
+    memo_rule(ctx, rep, "C08-key", ['ufl.algorithms.apply_function_pullbacks', 'ufl.pullback'])
     return rep
